@@ -54,6 +54,13 @@ META = {
          "Held on seeded timelines × quotas × windows explored.", "bound q*(floor(L/w)+2) as stated by the property", "§5 C20"),
 }
 
+def level_of(d):
+    """the level the check itself writes into its evidence (driver.Property.Level in its main.go)"""
+    import re
+    m = re.search(r'Level:\s*"(\w+)"', open(os.path.join(d, "main.go")).read())
+    return m.group(1) if m else "exploration"
+
+
 def main():
     props = [json.loads(l) for l in open(os.path.join(ROOT, "properties.jsonl"))]
     checks, na = [], []
@@ -69,7 +76,7 @@ def main():
                 "evidence_file": f"/verif/evidence/{pid}.json",
                 "replay_cmd_template": f"bin/{pid.lower()} --replay {{path}}",
                 "engine": "verifharness",
-                "level_claimed": {"category": "exploration", "text": text, "design_ref": "DESIGN.md " + ref},
+                "level_claimed": {"category": level_of(d), "text": text, "design_ref": "DESIGN.md " + ref},
                 "level_note": note,
                 "technique": "runtime monitoring: " + tech,
             })
